@@ -433,6 +433,8 @@ def check(rep, F, tier, replay=None):
             continue
         if not (fn_["file"].endswith("protocol_types/metadata.rs") or fn_["file"].endswith("protocol_types/plutus/plutus_data.rs")):
             continue
+        if fid_.split("::{closure")[0].rsplit("::", 1)[-1].startswith("deduplicated_"):
+            continue  # the set-form helpers drop repeats by design (judged by DEDUP-total / SIB-dedup), they are not converters
         n_fn += 1
         base_ = F.key(fid_.split("::{closure")[0])
         for c in F.calls(fid_):
